@@ -75,6 +75,10 @@ class SN(ASTNode):
         return iter(self.items)
 
 
+class OmitNone(Dialect):
+    omit_none = True
+
+
 class IntShift(Dialect):
     serialization_strategy = {int: {"serialize": lambda x: x + 1000, "deserialize": lambda x: x - 1000}}  # noqa: RUF012
 
@@ -96,6 +100,7 @@ OPTS = {
     "test": {AST_SERIALIZE_DIALECT_KEY: ASTSerializationDialects.AST_TEST},
     "srcidx": {SOURCE_OPTIMIZED_SERIALIZATION_KEY: True},
     "dialect": "MASHUMARO",
+    "flagdialect": "MASHUMARO-FLAGS",   # a dialect that works through a flag only (omit_none), no per-type strategies
 }
 
 
@@ -111,6 +116,8 @@ def kwargs_for(fn, opt):
         return {}
     if opt == "dialect":
         return {"mashumaro_dialect": IntShift} if fn in ("as_dict", "as_obj", "to_yaml", "from_yaml") else None
+    if opt == "flagdialect":
+        return {"mashumaro_dialect": OmitNone} if fn in ("as_dict", "to_yaml") else None
     return {"serialization_options": dict(OPTS[opt])}
 
 
@@ -271,6 +278,14 @@ def walk_check(x, opt, errs, is_node_level=True):
             walk_check(v, opt, errs)
 
 
+def _has_none(x):
+    if isinstance(x, dict):
+        return any(v is None or _has_none(v) for v in x.values())
+    if isinstance(x, list):
+        return any(_has_none(v) for v in x)
+    return False
+
+
 def _options_untouched(rec, case, name):
     """The options mapping belongs to the caller: the call must leave it as it was (callers keep one mapping and pass it to
     many calls)."""
@@ -301,7 +316,10 @@ def execute(rec, clean, inst, root, seqname):
             rec.violation("C16|harness|fault-not-hit", case, "the injected serialization fault did not fire")
         if fault is None and raised is not None:
             rec.violation(f"C16|serialize-raises|{opt}", case, f"{name} raised {raised}")
-        if raised is None and opt != "dialect":
+        if raised is None and opt == "flagdialect":
+            if _has_none(decode(fmt, res)):
+                rec.violation(f"C16|per-call|flagdialect|omit-none|{fmt}", case, f"{name}: a dialect with omit_none was given, the output still lists None-valued fields")
+        elif raised is None and opt != "dialect":
             errs = set()
             walk_check(decode(fmt, res), opt, errs)
             for e in sorted(errs):
@@ -310,7 +328,7 @@ def execute(rec, clean, inst, root, seqname):
     else:
         # deserialization descends only when the originals are not registered
         root.detach()
-        base_opt = None if opt in ("none", "dialect") else dict(OPTS[opt])
+        base_opt = None if opt in ("none", "dialect", "flagdialect") else dict(OPTS[opt])
         payload = SN.as_dict(root, serialization_options=base_opt) if opt != "dialect" else root.as_dict(mashumaro_dialect=IntShift)
         payload = copy.deepcopy(payload)
         encoded = None
